@@ -295,6 +295,7 @@ func c09Case(t *T) {
 	}
 
 	rec, pv, escaped := send(router, q, hdr)
+	t.Tracef("panicking request %s %v: escaped=%v value=%v, writer [%s] body %q, events %v", q, hdr, escaped, pv, rec.CallLog(), rec.Body.String(), rec.Events)
 	sawPanic := false
 	for _, ev := range rec.Events {
 		if strings.HasPrefix(ev, "panic(") {
@@ -439,6 +440,7 @@ func c09Case(t *T) {
 		rec1, pv1, p1 := send(router, fq, nil)
 		rec2, _, p2 := send(twin, fq, nil)
 		t.Count("followups.compared", 1)
+		t.Tracef("follow-up %s: %s", fq, rec1.Outcome())
 		if p1 != p2 {
 			t.Fail("followup-panics", "after the panic, request %s panicked=%v (%v); on a fresh identical router panicked=%v", fq, p1, pv1, p2)
 			return
